@@ -64,25 +64,51 @@ def octRing (F : DOps α) (pts : List (C α)) : Option (List (C α)) :=
     | none => [c]) []
   if dedup.length < 3 then none else some dedup
 
+/-- the octagon ring closed (first point repeated at the end unless it is there already) -/
+def closeRing (F : DOps α) (ring : List (C α)) : List (C α) :=
+  match ring.head?, ring.getLast? with
+  | some h, some l => if eqXY F h l then ring else ring ++ [h]
+  | _, _ => ring
+
+/-- TreeSet.Insert: kept sorted by IsLess2D, one entry per distinct (x,y) -/
+def treeIns (F : DOps α) (set : List (C α)) (c : C α) : List (C α) :=
+  if set.any (eqXY F c) then set else insertSorted (less2D F) c set
+
+/-- padArray3 -/
+def padTo3 (set : List (C α)) : List (C α) :=
+  if set.length < 3 then
+    match set with
+    | [] => set
+    | f :: _ => set ++ List.replicate (3 - set.length) f
+  else set
+
 /-- reduce(): points of the (closed) octagon plus every input point not inside or on it, as the
 sorted content of a TreeSet; padded to three entries. -/
 def reduce (F : DOps α) (inRing : P α → List (P α) → Bool) (pts : List (C α)) : List (C α) :=
   match octRing F pts with
   | none => pts
   | some ring =>
-    let closed := match ring.head?, ring.getLast? with
-      | some h, some l => if eqXY F h l then ring else ring ++ [h]
-      | _, _ => ring
+    let closed := closeRing F ring
     let poly := closed.map (xy F)
-    let ins (set : List (C α)) (c : C α) : List (C α) :=
-      if set.any (eqXY F c) then set else insertSorted (less2D F) c set
-    let set := closed.foldl ins []
-    let set := pts.foldl (fun s c => if inRing (xy F c) poly then s else ins s c) set
-    if set.length < 3 then
-      match set with
-      | [] => set
-      | f :: _ => set ++ List.replicate (3 - set.length) f
-    else set
+    let set := closed.foldl (treeIns F) []
+    let set := pts.foldl (fun s c => if inRing (xy F c) poly then s else treeIns F s c) set
+    padTo3 set
+
+/-- one step of the swap loop of preSort: pts[0] ends up the minimum; the others keep the
+displaced values -/
+def swapStep (F : DOps α) (st : C α × List (C α)) (c : C α) : C α × List (C α) :=
+  if F.lt (cy F c) (cy F st.1) || (feq F.toDetOps (cy F c) (cy F st.1) && F.lt (cx F c) (cx F st.1))
+  then (c, st.2 ++ [st.1]) else (st.1, st.2 ++ [c])
+
+/-- the radial comparator around the focal point -/
+def radialLess (F : DOps α) (orient : P α → P α → P α → Int) (fp : P α) (v1 v2 : C α) : Bool :=
+  let o := orient fp (xy F v1) (xy F v2)
+  if o > 0 then false
+  else if o < 0 then true
+  else
+    let dxp := F.sub (cx F v1) fp.1; let dyp := F.sub (cy F v1) fp.2
+    let dxq := F.sub (cx F v2) fp.1; let dyq := F.sub (cy F v2) fp.2
+    F.lt (F.add (F.mul dxp dxp) (F.mul dyp dyp)) (F.add (F.mul dxq dxq) (F.mul dyq dyq))
 
 /-- preSort: bring the lowest (then leftmost) point to the front by successive swaps, then sort
 everything radially around it. -/
@@ -90,40 +116,35 @@ def preSort (F : DOps α) (orient : P α → P α → P α → Int) (pts : List 
   match pts with
   | [] => []
   | p0 :: rest =>
-    -- the swap loop: pts[0] ends up the minimum; the others keep the displaced values
-    let (focal, others) := rest.foldl (fun (st : C α × List (C α)) c =>
-      if F.lt (cy F c) (cy F st.1) || (feq F.toDetOps (cy F c) (cy F st.1) && F.lt (cx F c) (cx F st.1))
-      then (c, st.2 ++ [st.1]) else (st.1, st.2 ++ [c])) (p0, [])
-    let fp := xy F focal
-    let less (v1 v2 : C α) : Bool :=
-      let o := orient fp (xy F v1) (xy F v2)
-      if o > 0 then false
-      else if o < 0 then true
-      else
-        let dxp := F.sub (cx F v1) fp.1; let dyp := F.sub (cy F v1) fp.2
-        let dxq := F.sub (cx F v2) fp.1; let dyq := F.sub (cy F v2) fp.2
-        F.lt (F.add (F.mul dxp dxp) (F.mul dyp dyp)) (F.add (F.mul dxq dxq) (F.mul dyq dyq))
-    sortBy less (focal :: others)
+    let st := rest.foldl (swapStep F) (p0, [])
+    sortBy (radialLess F orient (xy F st.1)) (st.1 :: st.2)
+
+/-- one iteration of the pop loop: state (p, stack, done) -/
+def popStep (F : DOps α) (orient : P α → P α → P α → Int) (q : C α)
+    (st : C α × List (C α) × Bool) : C α × List (C α) × Bool :=
+  if st.2.2 then st else
+  match st.2.1 with
+  | top :: below =>
+      if orient (xy F top) (xy F st.1) (xy F q) > 0 then (top, below, false) else (st.1, st.2.1, true)
+  | [] => (st.1, st.2.1, true)
+
+def popWhile (F : DOps α) (orient : P α → P α → P α → Int) (fuel : Nat) (p : C α) (stack : List (C α))
+    (q : C α) : C α × List (C α) :=
+  let r := (List.range fuel).foldl (fun st _ => popStep F orient q st) (p, stack, false)
+  (r.1, r.2.1)
+
+/-- one point of the scan: pop while the turn is not counter-clockwise, then push -/
+def scanStep (F : DOps α) (orient : P α → P α → P α → Int) (stack : List (C α)) (q : C α) : List (C α) :=
+  match stack with
+  | p :: below =>
+      let r := popWhile F orient (below.length + 1) p below q
+      q :: r.1 :: r.2
+  | [] => [q]
 
 /-- grahamScan: the stack as a list with the top at the head. -/
 def grahamScan (F : DOps α) (orient : P α → P α → P α → Int) (pts : List (C α)) : List (C α) :=
   match pts with
-  | a :: b :: c :: rest =>
-    let popWhile : Nat → C α → List (C α) → C α → C α × List (C α) :=
-      fun fuel p stack q =>
-        (List.range fuel).foldl (fun (st : C α × List (C α) × Bool) _ =>
-          if st.2.2 then st else
-          match st.2.1 with
-          | top :: below =>
-              if orient (xy F top) (xy F st.1) (xy F q) > 0 then (top, below, false) else (st.1, st.2.1, true)
-          | [] => (st.1, st.2.1, true)) (p, stack, false) |> fun r => (r.1, r.2.1)
-    let stack := rest.foldl (fun (stack : List (C α)) q =>
-      match stack with
-      | p :: below =>
-          let (p', below') := popWhile (below.length + 1) p below q
-          q :: p' :: below'
-      | [] => [q]) [c, b, a]
-    (a :: stack).reverse
+  | a :: b :: c :: rest => (a :: rest.foldl (scanStep F orient) [c, b, a]).reverse
   | _ => pts
 
 /-- isBetween -/
